@@ -183,6 +183,8 @@ class Executor:
         self.stats = dict(paths=0, forks=0, decides=0, steps=0)
         self.calls_seen = {}
         self._model_cache = {}
+        self.flip_site = None  # planted mutant: negate the comparison at the k-th distinct static site
+        self._cmp_sites = []
 
     # ---------------------------------------------------------------- solver-backed decisions
     def feasible(self, st, extra):
@@ -530,6 +532,13 @@ class Executor:
             if not (isinstance(a, BV) and isinstance(b, BV)):
                 raise Unsupported("binop %s on %r, %r" % (rv.extra, a, b))
             r = bv_bin(rv.extra, a, b)
+            if self.flip_site is not None and rv.extra in ("Eq", "Ne", "Lt", "Le", "Gt", "Ge") and st.frames:
+                fr = st.frames[-1]
+                site = (fr.fn.line, fr.block, fr.idx)
+                if site not in self._cmp_sites:
+                    self._cmp_sites.append(site)
+                if self._cmp_sites.index(site) == self.flip_site:
+                    r = b_not(r)
             if isinstance(r, tuple):
                 return Adt("(tuple)", None, None, [r[0], r[1]])
             return r
@@ -751,6 +760,20 @@ class Executor:
             raise Unsupported("terminator " + t.kind)
 
     def do_switch(self, st, v, tg):
+        if self.flip_site is not None and st.frames:
+            fr = st.frames[-1]
+            site = (fr.fn.line, fr.block, "switch")
+            if site not in self._cmp_sites:
+                self._cmp_sites.append(site)
+            if self._cmp_sites.index(site) == self.flip_site:
+                # planted mutant: take the other arm
+                if isinstance(v, B):
+                    v = b_not(v)
+                else:
+                    keys = [k for k in tg if k != "otherwise"]
+                    if len(keys) >= 2:
+                        tg = dict(tg)
+                        tg[keys[0]], tg[keys[1]] = tg[keys[1]], tg[keys[0]]
         if isinstance(v, B):
             if self.decide(st, v):
                 # any non-zero -> the `otherwise` (or the `1:`) arm
